@@ -3,6 +3,7 @@ package main
 import (
 	"fmt"
 	"os"
+	"os/exec"
 	"path/filepath"
 	"strings"
 
@@ -11,7 +12,21 @@ import (
 	"golang.org/x/tools/go/ssa/ssautil"
 )
 
-const repoDir = "/repo"
+// repoDir is /repo; VERIF_REPO points the same machinery at a scratch worktree (seeded-change
+// trials) - evidence and replays of such runs go under .work/alt and never into evidence/.
+var repoDir = func() string {
+	if d := os.Getenv("VERIF_REPO"); d != "" {
+		return d
+	}
+	return "/repo"
+}()
+
+func outDir(sub string) string {
+	if repoDir != "/repo" {
+		return filepath.Join(verifDir(), ".work", "alt", sub)
+	}
+	return filepath.Join(verifDir(), sub)
+}
 const modPath = "github.com/VKCOM/statshouse"
 
 type loaded struct {
@@ -35,6 +50,11 @@ func loadPackage(pkgRel string, harnessFiles []string, extraTags string) (*loade
 			return nil, err
 		}
 		overlay[filepath.Join(repoDir, pkgRel, "zz_verif_"+filepath.Base(hf))] = b
+	}
+	if rp, rb, err := randOverlay(); err != nil {
+		return nil, err
+	} else {
+		overlay[rp] = rb
 	}
 	tags := "verif"
 	if extraTags != "" {
@@ -82,4 +102,56 @@ func verifDir() string {
 		return d
 	}
 	return "/verif"
+}
+
+// randOverlay returns a patched copy of pgregory.net/rand's rand.go (the version /repo's go.mod
+// selects): every drawing method first consults the package-level VerifDraw hook, which the
+// native zzverif sets to its replay tape. The engine intercepts the same methods as solver
+// variables, so random draws are inputs on both sides and counterexamples replay natively.
+var randOv struct {
+	path string
+	data []byte
+	err  error
+	done bool
+}
+
+func randOverlay() (string, []byte, error) {
+	if randOv.done {
+		return randOv.path, randOv.data, randOv.err
+	}
+	randOv.done = true
+	cmd := exec.Command("go", "list", "-mod=mod", "-m", "-f", "{{.Dir}}", "pgregory.net/rand")
+	cmd.Dir = repoDir
+	cmd.Env = append(os.Environ(), "GOFLAGS=-mod=mod", "GOPROXY=off")
+	out, err := cmd.Output()
+	if err != nil {
+		randOv.err = fmt.Errorf("locating pgregory.net/rand: %v", err)
+		return "", nil, randOv.err
+	}
+	dir := strings.TrimSpace(string(out))
+	p := filepath.Join(dir, "rand.go")
+	b, err := os.ReadFile(p)
+	if err != nil {
+		randOv.err = err
+		return "", nil, err
+	}
+	src := string(b)
+	hooks := []struct{ sig, body string }{
+		{"func (r *Rand) Float64() float64 {", "return math.Float64frombits(VerifDraw(\"f64\", 0))"},
+		{"func (r *Rand) Float32() float32 {", "return math.Float32frombits(uint32(VerifDraw(\"f32\", 0)))"},
+		{"func (r *Rand) Uint64n(n uint64) uint64 {", "return VerifDraw(\"u64n\", n)"},
+		{"func (r *Rand) Uint32n(n uint32) uint32 {", "return uint32(VerifDraw(\"u32n\", uint64(n)))"},
+		{"func (r *Rand) Uint64() uint64 {", "return VerifDraw(\"u64\", 0)"},
+		{"func (r *Rand) Uint32() uint32 {", "return uint32(VerifDraw(\"u32\", 0))"},
+	}
+	for _, h := range hooks {
+		if strings.Count(src, h.sig) != 1 {
+			randOv.err = fmt.Errorf("pgregory.net/rand: cannot patch %q", h.sig)
+			return "", nil, randOv.err
+		}
+		src = strings.Replace(src, h.sig, h.sig+"\n\tif VerifDraw != nil {\n\t\t"+h.body+"\n\t}", 1)
+	}
+	src += "\n// VerifDraw, when set, supplies every random draw (verification replay hook).\nvar VerifDraw func(kind string, n uint64) uint64\n"
+	randOv.path, randOv.data = p, []byte(src)
+	return randOv.path, randOv.data, nil
 }
